@@ -553,6 +553,10 @@ def arenaOp (isKey : Bool) (op : Toks) (a : Arena Int) : Option (Arena Int × St
     let k ← tokInt k; let x ← tokInt x; let v ← tokInt v; let t ← tokInt t
     let a' ← a.kInsert ⟨k, x, v⟩ t
     pure (a', "ok")
+  -- `height()`: the capacity reserved for the export's stack (`Props/ArenaStack.lean`)
+  | true, ["stackcap"] => do
+    let c ← a.heightCap
+    pure (a, toString c)
   | true, ["export", t] => do
     let t ← tokInt t
     let (a', vals, capReq) ← a.kExport t
@@ -644,6 +648,13 @@ def runArena (coll : String) (op : Toks) (a : Arena Int) : String :=
   | none => "wf=0:abs | out=FAULT | st=- | tr="
   | some st =>
     if isKey && !(a.garbageOK st.tree.slots && a.zeroOK) then "wf=0:garbage | out=FAULT | st=- | tr=" else
+    -- `height()`: the zipper model has no such operation; what is cross-checked is the statement of
+    -- `arena_export_stack_capacity` on this arena: the capacity covers the height of the represented tree
+    if op == ["stackcap"] then
+      match a.heightCap with
+      | none => "wf=1 | out=FAULT | st=- | tr="
+      | some c => s!"wf={if st.tree.height ≤ c then "1" else "0:stack"} | out={c} | st={showArena a} | tr="
+    else
     let z := runTree base op st none
     match arenaOp isKey op a with
     | none => s!"wf={if fieldOf "out" z == "FAULT" then "1" else "0:refine-fault"} | out=FAULT | st=- | tr="
